@@ -370,7 +370,7 @@ impl Prop for C20 {
     }
     fn assumptions(&self) -> Vec<String> {
         vec![
-            "field tables (typed_tables.rs) are hand-written; hash-ordered collections carry a single element in the generated documents".into(),
+            "field tables (typed_tables.rs) are hand-written; collections that are hashed internally (Types, Environment) also carry several elements, written in the sorted order in which they are printed".into(),
             "types without Display are printed through to_paragraph::<lossy::Paragraph>()".into(),
         ]
     }
